@@ -323,7 +323,7 @@ def _touch_views(ctx, lentil, rng, w):
 
 def workload(ctx, lentil):
     rng = ctx.rng
-    n = 130 if ctx.tier == 'quick' else 900
+    n = ctx.count(130, 900)
     hi = 20 if ctx.tier == 'quick' else 40
     for i in range(n):
         wl = float(rng.uniform(400e-9, 1500e-9))
